@@ -285,6 +285,7 @@ def oracle(p):
     steps0_checks(rng, report, counts)
     generic_checks(rng, max(24, n // 5), report, counts)
     linked_replacement_checks(rng, max(24, n // 5), report, counts)
+    groups_checks(rng, max(40, n // 3), report, counts)
     best = {}
     for f in fails:
         best.setdefault(f["key"], f)
@@ -386,6 +387,60 @@ def generic_checks(rng, n, report, counts):
                 report(f"C07:GenericSpatialTransform.inverse:{kind}:raises", f"{type(e).__name__}: {str(e)[:140]}", case)
     finally:
         torch.set_default_dtype(torch.float64)
+
+
+def groups_checks(rng, n, report, counts):
+    """groups > 1: one transform per image of the batch.  For every linear class (and the named composites) with N
+    different parameter sets, tensor() of the inverse is, item by item, the tensor() of the inverse of a single-item
+    transform with that item's parameters, and inverse(t(x)) = x = t(inverse(x)) for N point sets"""
+    counts["groups"] = 0
+    for it in range(n):
+        name = rng.choice(list(LINEAR) + ["HomogeneousTransform"] * 3)
+        D = 3 if name == "QuaternionRotation" else rng.choice([2, 3])
+        N = rng.choice([2, 3])
+        held = rng.choice(["tensor", "Parameter"])
+        link = rng.random() < 0.4
+        case = {"cls": name, "D": D, "groups": N, "held": held, "link": link}
+        try:
+            rows = [rnd_params(rng, name, D) for _ in range(N)]
+            data = torch.tensor(rows, dtype=torch.float64)
+            t = build(name, D, Parameter(data.clone()) if held == "Parameter" else data.clone())
+            ti = t.inverse(link=link)
+            x = (torch.rand((N, 5, D), generator=torch.Generator().manual_seed(it)) * 1.6 - 0.8).double()
+            with torch.no_grad():
+                e = max(maxerr(ti(t(x)), x), maxerr(t(ti(x)), x))
+                counts["groups"] += 1
+                if e > 1e-9:
+                    report(f"C07:{name}.inverse:groups>1:not-inverse",
+                           f"with {N} transforms in the batch the inverse composed with the transform moves points by {e:.3g}", dict(case, params=rows))
+                    continue
+                full = ti.tensor()
+                for i in range(N):
+                    one = build(name, D, (Parameter(data[i:i + 1].clone()) if held == "Parameter" else data[i:i + 1].clone())).inverse()
+                    d = maxerr(full[i:i + 1], one.tensor())
+                    if d > 1e-9:
+                        report(f"C07:{name}.tensor:groups>1:item-differs-from-single",
+                               f"item {i} of the inverted tensor() of a batch of {N} differs from the single transform by {d:.3g}", dict(case, params=rows))
+                        break
+            # named composites with groups > 1
+            if it % 3 == 0:
+                cname = rng.choice(list(COMPOSITE))
+                Dc = 3 if cname == "RigidQuaternionTransform" else rng.choice([2, 3])
+                g = grid_of(Dc)
+                t0 = COMPOSITE[cname](g, groups=N)
+                args = {}
+                for nm, sub in t0.named_transforms():
+                    args[nm] = torch.tensor([rnd_params(rng, type(sub).__name__, Dc) for _ in range(N)], dtype=torch.float64)
+                tc = COMPOSITE[cname](g, groups=N, **args)
+                xc = (torch.rand((N, 5, Dc), generator=torch.Generator().manual_seed(77 + it)) * 1.6 - 0.8).double()
+                with torch.no_grad():
+                    e = max(maxerr(tc.inverse()(tc(xc)), xc), maxerr(tc(tc.inverse()(xc)), xc))
+                counts["groups"] += 1
+                if e > 1e-9:
+                    report(f"C07:{cname}.inverse:groups>1:not-inverse", f"composite with {N} groups: error {e:.3g}", {"cls": cname, "D": Dc, "groups": N})
+        except Exception as e:  # noqa
+            counts["raised"] += 1
+            report(f"C07:{name}.inverse:groups>1:raises", f"{type(e).__name__}: {str(e)[:120]}", case)
 
 
 def linked_replacement_checks(rng, n, report, counts):
